@@ -11,7 +11,7 @@ open Oras Oras.Driver
 
 def parseSrv (t : String) : Option Srv :=
   if t == "T" then some .timeout
-  else if t == "E" then some .netErr
+  else if t == "E" || t == "N" then some .netErr      -- N: a net.Error whose Timeout() is false
   else if t == "401b" then some (.unauthorized false)
   else if t == "401B" then some (.unauthorized true)
   else match t.splitOn ":ra" with
